@@ -67,8 +67,8 @@ type Row struct {
 	lex      []Lock
 	obj      types.Object
 	pos      token.Pos // effective position (writes: end of the assigning statement)
-	recv     bool      // access follows a channel receive (for chanhb)
-	closed   bool      // access is followed by close (for chanhb)
+	recvFrom []string  // names of the channels received from before this access (for chanhb)
+	closedBy []string  // names of the channels closed after this access in its function (for chanhb)
 	ownWrite bool      // a write to the same location precedes in the same root (program order)
 	isCall   bool      // the access is a call through a func-typed field
 	roots    *[]*root
@@ -247,7 +247,7 @@ type walker struct {
 	locals  map[types.Object]bool // locals known to hold an object under construction
 	recvd   map[string]bool       // channel names received from so far in this function
 	stmtEnd token.Pos             // end of the assignment statement being walked (0 otherwise)
-	deferCl bool                  // a `defer close(c)` is pending in this function
+	deferCl []string              // channels with a pending `defer close(c)` in this function
 	wrote   map[string]bool       // "root:var" written so far (program order within a root)
 }
 
@@ -411,7 +411,7 @@ func (w *walker) stmt(s ast.Stmt) {
 		}
 		if id, ok := x.Call.Fun.(*ast.Ident); ok && id.Name == "close" && len(x.Call.Args) == 1 {
 			w.markClosed(chanName(x.Call.Args[0]), token.NoPos)
-			w.deferCl = true
+			w.deferCl = append(w.deferCl, chanName(x.Call.Args[0]))
 		}
 		w.call(x.Call, false, true)
 	case *ast.GoStmt:
@@ -608,10 +608,9 @@ func chanName(e ast.Expr) string {
 func (w *walker) markClosed(name string, _ token.Pos) {
 	for _, r := range w.pc.rows {
 		if r.Func == w.fnName {
-			r.closed = true
+			r.closedBy = append(r.closedBy, name)
 		}
 	}
-	w.recvd["closed:"+name] = true
 }
 
 // lhs records a write to the location denoted by e (and reads of its sub-expressions).
@@ -888,7 +887,7 @@ func (w *walker) funcLitUnit(fl *ast.FuncLit, held []Lock, newRoot, multi bool, 
 	if newRoot {
 		w.curRoot = w.newRoot(fl, multi)
 		w.recvd = map[string]bool{}
-		w.deferCl = false
+		w.deferCl = nil
 		if u == nil {
 			u = &unit{key: fmt.Sprintf("%s#%d", w.fnName, w.curRoot), fixed: true, initCtx: w.initCtx}
 		}
@@ -945,22 +944,17 @@ func (w *walker) common(r *Row, write bool) {
 	if write && w.stmtEnd != 0 {
 		r.pos = w.stmtEnd
 	}
-	r.recv = w.anyRecv()
-	r.closed = w.deferCl
+	for k, v := range w.recvd {
+		if v {
+			r.recvFrom = append(r.recvFrom, k)
+		}
+	}
+	r.closedBy = append([]string(nil), w.deferCl...)
 	key := fmt.Sprintf("%d:%s", w.curRoot, r.Var)
 	r.ownWrite = w.wrote[key]
 	if write {
 		w.wrote[key] = true
 	}
-}
-
-func (w *walker) anyRecv() bool {
-	for k, v := range w.recvd {
-		if v && !strings.HasPrefix(k, "closed:") && !strings.HasSuffix(k, "()") && k != "?" {
-			return true
-		}
-	}
-	return false
 }
 
 func (w *walker) ident(id *ast.Ident, write bool) {
@@ -1218,26 +1212,58 @@ func finish(all []*Row, fset *token.FileSet, repo, outLean, outJSON string) {
 	for _, r := range rows {
 		byVar[r.Var] = append(byVar[r.Var], r)
 	}
-	for _, rs := range byVar {
-		ok, hasW := true, false
-		for _, r := range rs {
-			if r.Exempt == "init" {
-				continue
-			}
-			if r.Write {
-				hasW = true
-				if !r.closed {
-					ok = false
-				}
-			} else if !r.recv && !r.ownWrite {
-				ok = false
+	has := func(xs []string, c string) bool {
+		for _, x := range xs {
+			if x == c {
+				return true
 			}
 		}
-		if ok && hasW {
-			for _, r := range rs {
-				if r.Exempt == "" {
-					r.Exempt = "chanhb"
+		return false
+	}
+	for _, rs := range byVar {
+		// candidate channels: closed after every (non-init) write
+		var cands []string
+		first, hasW := true, false
+		for _, r := range rs {
+			if r.Exempt == "init" || !r.Write {
+				continue
+			}
+			hasW = true
+			if first {
+				cands, first = append([]string(nil), r.closedBy...), false
+			} else {
+				var keep []string
+				for _, c := range cands {
+					if has(r.closedBy, c) {
+						keep = append(keep, c)
+					}
 				}
+				cands = keep
+			}
+		}
+		if !hasW {
+			continue
+		}
+		for _, c := range cands {
+			if c == "?" || strings.HasSuffix(c, "()") {
+				continue
+			}
+			ok := true
+			for _, r := range rs {
+				if r.Exempt == "init" || r.Write {
+					continue
+				}
+				if !has(r.recvFrom, c) && !r.ownWrite {
+					ok = false
+				}
+			}
+			if ok {
+				for _, r := range rs {
+					if r.Exempt == "" {
+						r.Exempt = "chanhb"
+					}
+				}
+				break
 			}
 		}
 	}
